@@ -107,6 +107,9 @@ def make_parties(m, t, no_prss=False, k=8, keys=None):
         opt.no_prss = True          # avoid key generation in the setter; keys are set below
         rt = rtmod.Runtime(i, parties, opt)
         opt.no_prss = no_prss
+        # the start-up option and the live threshold are different things (a program may set mpc.threshold later): make them differ,
+        # so that code reading options.threshold instead of self.threshold is exposed
+        opt.threshold = (m - 1) // 2 if t != (m - 1) // 2 else 0
         rt._prss_keys = {S: kk for S, kk in keys.items() if i in S}
         for j in range(m):
             if j != i: parties[j].protocol = GhostProto(net, i, j, loop)
